@@ -2,7 +2,7 @@
 from . import ipgen, ipref
 from .ipcommon import MODEL_DEPS, TRUSTED_BASE, ASSUMPTIONS  # noqa
 
-COQ_DEPS = ["lib/PPCore.v", "lib/PPHost.v", "lib/Memo.v", "lib/MemoProofs.v", "lib/Pinned.v", "lib/Str.v", "lib/Mask.v", "lib/Md5.v", "model/IpModel.v", "lib/PyLib.v", "gen/G_fn_ip.v", "refine/RefMask.v"]
+COQ_DEPS = ["lib/PPCore.v", "lib/PPHost.v", "lib/Memo.v", "lib/MemoProofs.v", "lib/Pinned.v", "lib/Str.v", "lib/Mask.v", "lib/Md5.v", "model/IpModel.v", "lib/PyLib.v", "gen/G_fn_ip.v", "refine/RefMask.v", "refine/RefShould.v"]
 RULE = ("_is_mask on all 66 mask/wildcard values, all their one-bit perturbations and random values, against a string-shape oracle; should_anonymize and images for "
         "addresses inside/outside preserved networks (first/last/neighbours/random), every B; "
         "non-trivial = a distinct 32-bit value tested for mask shape, or an outside address whose image was tested for collision")
@@ -95,6 +95,8 @@ def run(ctx):
         ops = ["s%d" % x for x in xs] + ["a%d" % x for x in xs]
         cases.append(["ip4", str(B), "md5:" + rng.choice(ipgen.SALTS), pfx, addrs, " ".join(ops)])
     m2, i2 = ctx.correspond(cases, project=project_nets, label="preserved-networks")
+    gcases = [["gip4"] + c[1:] for c in cases if c[2].startswith("md5:")][: 10 if q else 200]      # executed by the generated code
+    ctx.correspond(gcases, project=lambda c, o: project_nets(["ip4"] + c[1:], o), label="generated-code")
     nt = 0
     for c, out in zip(cases, i2):
         nets = ipref.nets_of(c[4])
